@@ -286,4 +286,94 @@ theorem C11_severity (size : Nat) (core : Bool) :
 example : cycles { n := 7, edges := [(0,1),(1,2),(2,0),(3,4),(4,3),(5,5),(2,3),(6,0)] } = some [[0,1,2],[3,4]] := by
   decide
 
+/-! ### Totality: the certified closure never runs out of fuel (every round that is not yet closed covers the target of at least one more edge) -/
+
+/-- number of edges whose target is not yet in the set -/
+def uncovered (g : G) (R : List Nat) : Nat := (g.edges.filter fun e => !R.contains e.2).length
+
+theorem uncovered_le (g : G) (R : List Nat) : uncovered g R ≤ g.edges.length := List.length_filter_le _ _
+
+theorem filter_length_lt {α : Type} (p q : α → Bool) (l : List α) (himp : ∀ x ∈ l, q x = true → p x = true)
+    (x : α) (hx : x ∈ l) (hp : p x = true) (hq : q x = false) : (l.filter q).length < (l.filter p).length := by
+  induction l with
+  | nil => cases hx
+  | cons a l ih =>
+    simp only [List.filter_cons]
+    rcases List.mem_cons.mp hx with rfl | hx'
+    · have hle : (l.filter q).length ≤ (l.filter p).length := by
+        clear ih hx
+        induction l with
+        | nil => simp
+        | cons b l ihl =>
+          simp only [List.filter_cons]
+          have hb := himp b (List.mem_cons_of_mem _ List.mem_cons_self)
+          have := ihl (fun y hy => himp y (by
+            rcases List.mem_cons.mp hy with rfl | h
+            · exact List.mem_cons_self
+            · exact List.mem_cons_of_mem _ (List.mem_cons_of_mem _ h)))
+          by_cases hqb : q b = true
+          · simp [hqb, hb hqb]; omega
+          · by_cases hpb : p b = true <;> simp [hqb, hpb] <;> omega
+      simp [hp, hq]; omega
+    · have := ih (fun y hy => himp y (List.mem_cons_of_mem _ hy)) hx'
+      have ha := himp a List.mem_cons_self
+      by_cases hqa : q a = true
+      · simp [hqa, ha hqa]; omega
+      · by_cases hpa : p a = true <;> simp [hqa, hpa] <;> omega
+
+theorem uncovered_expand_lt (g : G) (R : List Nat) (h : closed g R = false) : uncovered g (expand g R) < uncovered g R := by
+  unfold closed at h
+  rw [List.all_eq_false] at h
+  obtain ⟨e, he, hbad⟩ := h
+  have h1 : R.contains e.1 = true ∧ R.contains e.2 = false := by
+    have hb : e.1 ∈ R ∧ ¬ e.2 ∈ R := by simpa using hbad
+    exact ⟨by simpa using hb.1, by simpa using hb.2⟩
+  unfold uncovered
+  apply filter_length_lt (fun x => !R.contains x.2) (fun x => !(expand g R).contains x.2) g.edges _ e he (by rw [h1.2]; rfl)
+  · -- e.2 is in the expanded set
+    have : e.2 ∈ expand g R := mem_expand.mpr (.inr ⟨e, he, by simpa using h1.1, rfl⟩)
+    simp [this]
+  · intro x _ hx
+    have hx' : x.2 ∉ expand g R := by simpa using hx
+    have : x.2 ∉ R := fun hR => hx' (mem_expand.mpr (.inl hR))
+    simpa using this
+
+/-- enough fuel ⇒ the closure returns -/
+theorem closure_total (g : G) : ∀ (m : Nat) (R : List Nat), uncovered g R ≤ m → ∀ f, m ≤ f → ∃ S, closure g f R = some S := by
+  intro m
+  induction m with
+  | zero =>
+    intro R hm f _
+    have hc : closed g R = true := by
+      by_contra hne
+      have hf : closed g R = false := by simpa using hne
+      have := uncovered_expand_lt g R hf
+      omega
+    cases f with
+    | zero => exact ⟨R, by simp [closure, hc]⟩
+    | succ f => exact ⟨R, by simp [closure, hc]⟩
+  | succ m ih =>
+    intro R hm f hf
+    cases f with
+    | zero => omega
+    | succ f =>
+      by_cases hc : closed g R = true
+      · exact ⟨R, by simp [closure, hc]⟩
+      · have hc' : closed g R = false := by simpa using hc
+        have hlt := uncovered_expand_lt g R hc'
+        obtain ⟨S, hS⟩ := ih (expand g R) (by omega) f (by omega)
+        exact ⟨S, by simp [closure, hc', hS]⟩
+
+/-- **The model is total**: the certified closure never runs out of fuel, so `cycles` and `classes` always return. -/
+theorem C11_total (g : G) : (∃ cs, cycles g = some cs) ∧ (∃ cs, classes g = some cs) := by
+  have hall : tableOk (reachTable g) = true := by
+    unfold tableOk reachTable
+    rw [List.all_eq_true]
+    intro o ho
+    obtain ⟨u, _, rfl⟩ := List.mem_map.mp ho
+    unfold reachSet
+    obtain ⟨S, hS⟩ := closure_total g g.edges.length [u] (uncovered_le g [u]) (g.n + g.edges.length + 1) (by omega)
+    rw [hS]; rfl
+  exact ⟨⟨cyclesOf g (reachTable g), by simp [cycles, hall]⟩, ⟨classesOf g (reachTable g), by simp [classes, hall]⟩⟩
+
 end PV.C11
